@@ -182,6 +182,66 @@ def _gate(ctx: Ctx, fi: FunctionInfo, what: str) -> dict:
     return {"cfg": cfg, "oc": oc, "sid": sid_n, "sess": sess_n, "wid": wid, "wid_bad": wid_bad, "gc": gc, "entry": ent_n, "miss": miss, "miss_bad": miss_bad}
 
 
+class _Returned(Exception):
+    def __init__(self, value: object) -> None:
+        self.value = value
+
+
+def _run_get(fi: FunctionInfo, body: list[ast.stmt], env: dict[str, object], entry_name: str, entry_val: object, expires_at: float) -> object:
+    """Structured abstract execution of the registry lookup: statements are run in order, guards and returned
+    expressions are evaluated with mini_eval over ``env``; anything it cannot interpret is an AnalysisError."""
+
+    def ex(stmts: list[ast.stmt]) -> None:
+        for st in stmts:
+            if isinstance(st, ast.Return):
+                v = st.value
+                while isinstance(v, ast.Call) and last_attr(v) == "cast" and len(v.args) == 2:
+                    v = v.args[1]
+                if v is None:
+                    raise _Returned(None)
+                try:
+                    raise _Returned(mini_eval(v, env))
+                except AnalysisError:
+                    raise _Returned("other:" + txt(v)[:40]) from None  # a value that is neither the looked-up entry nor None
+            if isinstance(st, ast.Raise):
+                raise _Returned("raise:" + txt(st)[:40])
+            if isinstance(st, ast.If):
+                ex(st.body if mini_eval(st.test, env) else st.orelse)
+            elif isinstance(st, (ast.With, ast.AsyncWith)):
+                ex(st.body)
+            elif isinstance(st, ast.Try):
+                ex(st.body)
+                ex(st.orelse)
+                ex(st.finalbody)
+            elif isinstance(st, (ast.Assign, ast.AnnAssign)):
+                tgts = st.targets if isinstance(st, ast.Assign) else [st.target]
+                val = st.value
+                for t in tgts:
+                    if not isinstance(t, ast.Name):
+                        continue
+                    if isinstance(val, ast.Call) and last_attr(val) in ("get", "pop") and "_entries" in txt(val.func):
+                        env[t.id] = entry_val
+                        env[f"{t.id}.expires_at"] = expires_at
+                        env[f"{t.id}.principal_key"] = "alice"
+                    elif isinstance(val, ast.Call) and last_attr(val) in ("time", "monotonic"):
+                        env[t.id] = 20.0
+                    elif val is not None:
+                        try:
+                            env[t.id] = mini_eval(val, env)
+                        except AnalysisError:
+                            env.pop(t.id, None)  # unknown value: a later guard that needs it raises AnalysisError
+            elif isinstance(st, (ast.Expr, ast.Delete, ast.Pass, ast.AugAssign, ast.Assert, ast.Global, ast.Nonlocal, ast.Import, ast.ImportFrom)):
+                continue
+            else:
+                raise AnalysisError(f"C25: unsupported statement `{txt(st)[:50]}` in {fi.fq} (cannot execute the lookup abstractly)")
+
+    try:
+        ex(body)
+    except _Returned as r:
+        return r.value
+    return None
+
+
 def run(ctx: Ctx) -> None:
     ctx.explanation = META["text"]
     ctx.not_decided = "the mutation space of real tokens (AEAD, trusted); eviction timing of the reaper (C26); behaviour for a stream method literally named `health` (exempt prefix); equality of the 200 bodies byte for byte."
@@ -370,49 +430,28 @@ def run(ctx: Ctx) -> None:
     en = next(iter(ent_names))
     lk = [n.value for n in walk_scope(rg.node) if isinstance(n, ast.Assign) and isinstance(n.value, ast.Call) and last_attr(n.value) in ("get", "pop") and "_entries" in txt(n.value.func)][0]
     ctx.check(bool(lk.args) and isinstance(lk.args[0], ast.Name) and lk.args[0].id == sess_p, "RF-TAINT", "registry-looks-up-asked-session", rg, lk, ok="entry = _entries[session_id asked for]", bad="the registry looks up an id other than the one asked for")
-    pos_rets = [r for r in walk_scope(rg.node) if isinstance(r, ast.Return) and isinstance(r.value, ast.Name) and r.value.id == en]
-    some(pos_rets, "`return entry` in _SessionRegistry.get", rg)
-    other_rets = [r for r in walk_scope(rg.node) if isinstance(r, ast.Return) and r not in pos_rets and not (r.value is None or (isinstance(r.value, ast.Constant) and r.value.value is None))]
-    ctx.check(not other_rets, "RF-DOM", "registry-returns-entry-or-none", rg, other_rets[0] if other_rets else rg.node, ok="get() returns the looked-up entry or None", bad="get() can return something other than the looked-up entry")
-    pos_nodes: set[int] = set()
-    for r in pos_rets:
-        pos_nodes |= rcfg.done(r)
-    now_names = {t.id for n in walk_scope(rg.node) if isinstance(n, ast.Assign) and isinstance(n.value, ast.Call) and last_attr(n.value) == "time" for t in n.targets if isinstance(t, ast.Name)}
-    checks = {
-        "absent": [n for n in walk_scope(rg.node) if isinstance(n, ast.If) and (t := is_none_test(n.test)) is not None and isinstance(t[0], ast.Name) and t[0].id == en],
-        "expired": [n for n in walk_scope(rg.node) if isinstance(n, ast.If) and "expires_at" in txt(n.test) and (names_in(n.test) & now_names)],
-        "foreign-principal": [n for n in walk_scope(rg.node) if isinstance(n, ast.If) and pk_p in names_in(n.test) and "principal_key" in {a.attr for a in ast.walk(n.test) if isinstance(a, ast.Attribute)}],
+    # Decide get() by *executing* it abstractly over the five session scenarios (guards, IfExp results and early
+    # returns are evaluated, never pattern-matched): what does the call hand back?
+    ENTRY = object()
+    scenarios = {
+        "absent": (False, False, False),
+        "live-owner": (True, False, False),
+        "expired": (True, True, False),
+        "foreign-principal": (True, False, True),
+        "expired-foreign": (True, True, True),
     }
-    for cname, ifs in checks.items():
-        if not ifs:
-            ctx.fail("RF-DOM", f"registry-rejects-{cname}", rg, pos_rets[0], f"get() has no test for a {cname} session: it is handed to the caller")
-            continue
-        gi = ifs[0]
-        if cname == "absent":
-            t = is_none_test(gi.test)
-            assert t is not None
-            bad_lab = "T" if t[1] else "F"
-        elif cname == "expired":
-            nown = sorted(names_in(gi.test) & now_names)[0]
-            ea = [a for a in ast.walk(gi.test) if isinstance(a, ast.Attribute) and a.attr == "expires_at"][0]
-            v_exp = bool(mini_eval(gi.test, {txt(ea): 10.0, nown: 20.0}))
-            v_live = bool(mini_eval(gi.test, {txt(ea): 30.0, nown: 20.0}))
-            if v_exp == v_live:
-                ctx.fail("RF-DOM", f"registry-rejects-{cname}", rg, gi, f"`{txt(gi.test)}` does not separate expired from live sessions")
-                continue
-            bad_lab = "T" if v_exp else "F"
-        else:
-            pa = [a for a in ast.walk(gi.test) if isinstance(a, ast.Attribute) and a.attr == "principal_key"][0]
-            v_ne = bool(mini_eval(gi.test, {txt(pa): "alice", pk_p: "bob"}))
-            v_eq = bool(mini_eval(gi.test, {txt(pa): "alice", pk_p: "alice"}))
-            if v_ne == v_eq:
-                ctx.fail("RF-DOM", f"registry-rejects-{cname}", rg, gi, f"`{txt(gi.test)}` does not separate the owner from another principal")
-                continue
-            bad_lab = "T" if v_ne else "F"
-        r = rcfg.reach(edge_targets(rcfg, gi, bad_lab))
-        okd = all(dominated(ctx, rg, pr_, [gi])[0] for pr_ in pos_rets)
-        ctx.check(not (r & pos_nodes) and okd, "RF-DOM", f"registry-rejects-{cname}", rg, gi, ok=f"`{txt(gi.test)}`: a {cname} session is never returned, and the test lies on every path to `return {en}`",
-                  bad=f"a {cname} session can be returned to the caller")
+    results: dict[str, object] = {}
+    for sname, (present, expired, foreign) in scenarios.items():
+        env: dict[str, object] = {pk_p: "bob" if foreign else "alice", "time.time()": 20.0, "time.monotonic()": 20.0, "self._draining": False}
+        results[sname] = _run_get(rg, list(rg.node.body), env, en, ENTRY if present else None, 10.0 if expired else 30.0)
+    bad_vals = sorted(k for k, v in results.items() if v is not None and v is not ENTRY)
+    ctx.check(not bad_vals, "RF-DOM", "registry-returns-entry-or-none", rg, lk, ok="in every scenario get() returns the looked-up entry or None",
+              bad=f"get() returns something other than the looked-up entry / None in scenario(s) {bad_vals}")
+    for cname, scen in (("absent", ["absent"]), ("expired", ["expired", "expired-foreign"]), ("foreign-principal", ["foreign-principal", "expired-foreign"])):
+        leaked = [x for x in scen if results[x] is not None]
+        ctx.check(not leaked, "RF-DOM", f"registry-rejects-{cname}", rg, lk, ok=f"get() evaluated on a {cname} session returns None",
+                  bad=f"get() evaluated on a {cname} session (scenario {leaked}) hands the session to the caller")
+    _ = rcfg
     rcls = ctx.repo.cls(REG)
     for mname in ("get", "open", "close"):
         m = rcls.methods.get(mname)
